@@ -2741,8 +2741,11 @@ impl KnowledgeGraph {
         // 2. Remove from metadata
         self.metadata.relations.remove(name);
 
-        // 3. Remove schema
-        self.schema_catalog.remove(name);
+        // 3. Remove schema - and save the catalog: the removal only changed memory, so the schema
+        // of a dropped relation was back after the next restart.
+        if self.schema_catalog.remove(name).is_some() {
+            self.save_schema_catalog()?;
+        }
 
         // 4. Drop any associated rules (ignore error if no rules)
         let _ = self.rule_catalog.drop(name);
